@@ -89,6 +89,22 @@ def main():
                            if cp not in skip and not (0xD800 <= cp <= 0xDFFF) and cp != 92)
             if text:
                 recs.append(record(text))
+    if job.get("pairs"):
+        # every code point of the given ranges followed by listed combining accents (the accent belongs to THAT character)
+        stride, offset, per_char = job["pairs"]
+        marks = [0x0300, 0x0301, 0x0302, 0x0308, 0x030B, 0x0303, 0x0327, 0x0328, 0x0304, 0x0331, 0x0307, 0x0323, 0x030A, 0x0306, 0x030C]
+        k = 0
+        for lo, hi in job.get("pair_ranges", [[0x20, 0x250], [0x370, 0x530], [0x1E00, 0x2000], [0x2C60, 0x2C80], [0xA720, 0xA800]]):
+            for cp in range(lo, hi):
+                if 0xD800 <= cp <= 0xDFFF or cp == 92:
+                    continue
+                if k % stride == offset:
+                    for j in range(per_char):
+                        m = marks[(cp + j * 4) % len(marks)]
+                        recs.append(record(chr(cp) + chr(m)))
+                        if j == 0:
+                            recs.append(record("x" + chr(cp) + chr(m) + chr(marks[(cp + 7) % len(marks)]) + "y"))
+                k += 1
     for _ in range(job.get("random", 0)):
         n = rng.randint(0, 12)
         text = "".join(rng.choice(POOL) for _ in range(n))
